@@ -2,6 +2,24 @@
 NOT_APPLICABLE = {}
 
 TEXT = {
+    "C18": {
+        "technique": "grammar-based property testing with rapid (differential oracle: time.Parse), enumeration of all calendar dates in thorough, mutation/prefix/random strings for the no-panic clause",
+        "design_ref": "DESIGN.md §5 C18",
+        "level_text": "Strings from the RFC 3339 grammar that time.Parse accepts must decode (into time.Time and null.Time) to the same instant and offset; all dates of years 0000-9999 (thorough) must give midnight UTC; Format(RFC3339Nano) must round-trip; edited, truncated and random strings must give a time or an error.",
+        "level_note": "time.Parse is the oracle and also accepts non-RFC strings, so agreement is only demanded inside the grammar.",
+    },
+    "C19": {
+        "technique": "enumeration (all 2^32 day counts in thorough) and rapid draws with an arithmetic oracle (time.Unix) for the read direction, reference decoder + resolution bound for the write direction",
+        "design_ref": "DESIGN.md §5 C19",
+        "level_text": "date / timestamp-millis / timestamp-micros / plain long are read through Schema.Codec into time.Time and *time.Time and compared with the instant the specification assigns; written times are decoded by the reference decoder and must be the right calendar day resp. within one unit, and read back within one unit.",
+        "level_note": "Floor or truncation both accepted for timestamps; instants within 1 ms of the int64-ns limits excluded.",
+    },
+    "C20": {
+        "technique": "model-based property testing with rapid: registration/roundtrip histories, model = latest registration per type, marker bytes read by the reference decoder plus call counters",
+        "design_ref": "DESIGN.md §5 C20",
+        "level_text": "Custom types of struct, named-int and named-slice kind (and unregistered look-alikes) are placed in generated type trees at every position; after arbitrary re-registrations the generated schema must show the registered schema at each occurrence, the bytes must carry the latest builder's marker, values must round-trip and stale builders must not run.",
+        "level_note": "Registrations cannot be undone, so each run starts by re-registering a baseline.",
+    },
     "C01": {
         "technique": "property-based testing (rapid): generated Go types-as-data x value sequences x encoder configurations, round-trip oracle through an abstraction of the documented normalisations; shrunk failures kept as regression witnesses",
         "design_ref": "DESIGN.md §5 C01, §4.2-4.3",
@@ -26,6 +44,54 @@ TEXT = {
         "level_text": "For generated files (as C03) the full target is projected by deleting, permuting and adding fields at every depth; both decodes must deliver the same records on every surviving path and leave added fields zero. Each datum is also wrapped with a trailing sentinel so that Codec.Skip, Codec.Read and a decode that skips the datum must all consume exactly the datum's bytes.",
         "level_note": "The full decode is taken as the reference (C03 judges it). Files with values that do not fit the full target are out of domain.",
     },
+    "C05": {
+        "technique": "exhaustive enumeration of the schema-type x Go-kind x position matrix with guard/canary memory around every destination (fault visibility), differential value oracle from the reference encoder; evaluated in a worker subprocess",
+        "design_ref": "DESIGN.md §5 C05",
+        "level_text": "Every cell of the matrix (23 schema types x 45 Go types x {field, *field, **field, slice element, map value}) is built in every run; where Schema.Codec accepts the pair, in-range and out-of-range datums are decoded into a struct whose neighbours and surroundings are filled with a canary pattern: canaries must be intact and an error-free decode must leave exactly the datum's value. Exhaustive over the matrix, sampled over values.",
+        "level_note": "A wild store that lands in unrelated heap memory is visible only as a worker crash or a wrong neighbour; rejection of a pair is never demanded, only soundness of accepted pairs.",
+    },
+    "C06": {
+        "technique": "structure-aware mutation fuzzing driven by rapid (token spans from the reference decoder), truncation / bit flips / random bytes, evaluated in a worker subprocess with an address-space limit, watchdog and heap-footprint accounting; native coverage-guided fuzz targets in thorough",
+        "design_ref": "DESIGN.md §5 C06, §3.4",
+        "level_text": "Single-token hostile replacements of every length / count / size / selector in valid files and record bodies, truncations, bit flips, header variants, arbitrary schema documents against catalogue targets and timestamp text are evaluated out of process: any panic, process death (fatal OOM, stack overflow), missing answer within 20 s or heap growth beyond 32 MiB + 4096 x input is a violation. Sampled; multi-token malformations only via the thorough tier's fuzz targets.",
+        "level_note": "The allocation bound is a threshold, not a proof of proportionality. Arrays with zero-width items and zero-width top-level records are excluded (legal amplification).",
+    },
+    "C07": {
+        "technique": "fault enumeration over generated files: every bit of every sync marker / CRC / magic, capped enumeration of compressed payload bits with a computed oracle (reference decompressor), header rewrites, every callback failure index",
+        "design_ref": "DESIGN.md §5 C07",
+        "level_text": "For each generated file (reference-written or written by the library) every listed corruption site is applied in turn; sync/CRC/magic damage, missing schema and unknown codec must give an error with only intact records before it, payload damage must give an error exactly when compress/flate or snappy+CRC rejects it, a header without avro.codec must read as uncompressed, and a callback error at record k must stop after k+1 callbacks and come back as the identical error value.",
+        "level_note": "Exhaustive per file over the listed site kinds (payload bits capped at 4096 per file), sampled over files.",
+    },
+    "C08": {
+        "technique": "crash-point enumeration: every cut position of generated files, oracle from the reference block table",
+        "design_ref": "DESIGN.md §5 C08",
+        "level_text": "Every prefix 0..len of each generated file (<= 4 KiB) is read: the delivered records must be exactly those of the blocks whose payload is complete, equal to the intact file's records, and the result is nil only at the end of the header or of a block.",
+        "level_note": "Exhaustive per file (all cuts), sampled over files.",
+    },
+    "C09": {
+        "technique": "model-based (stateful) property testing with rapid: call histories as data, model of pending records, reference reader checks the bytes appended by every single call",
+        "design_ref": "DESIGN.md §5 C09",
+        "level_text": "Generated encode/flush histories over the real generic Encoder[T] with all block sizes and codecs; after every call the newly appended bytes must be nothing or exactly one exact block of the pending records, emitted in the call where the buffered size reached the block size or in a flush with records pending.",
+        "level_note": "Encoder[T] is exercised with the catalogue's compile-time types only.",
+    },
+    "C10": {
+        "technique": "model-based property testing with rapid: retention plans over multi-block files, and bank-API histories with an allocation/interning model checked after every step",
+        "design_ref": "DESIGN.md §5 C10",
+        "level_text": "Records retained across later blocks and bank closes must keep denoting what they denoted when delivered; Alloc results must be zeroed and disjoint from every live allocation, and live allocations / interned strings must keep their contents through arbitrary interleavings of alloc, intern, extract, close, new buffers and collections.",
+        "level_note": "Independent of which bank sync.Pool returns; double Close is out of domain.",
+    },
+    "C11": {
+        "technique": "property-based testing with fault visibility: worker subprocess with GODEBUG=clobberfree=1, forced collections injected between field decodes through a registered custom codec, round-trip oracle after collections",
+        "design_ref": "DESIGN.md §5 C11",
+        "level_text": "Types rich in maps/slices behind pointers and nested maps are decoded while collections run between fields, in the callback and after the read; with clobberfree any object the collector cannot see is overwritten at the next collection, so a mis-tracked value fails the comparison deterministically. Encoding under a background collector must produce the same data.",
+        "level_note": "Collection points are sampled, not enumerated; windows inside one codec call are hit only by the background collector.",
+    },
+    "C12": {
+        "technique": "randomised concurrent programs under the Go race detector with a sequential oracle (rapid generates the per-goroutine programs)",
+        "design_ref": "DESIGN.md §5 C12",
+        "level_text": "2-8 goroutines run generated mixes of schema generation, codec construction, registration, decode/encode through shared codecs, whole-file reads, bank closing across goroutines and timestamp parsing; each result must equal the precomputed sequential result and the race detector must stay silent.",
+        "level_note": "Schedules are sampled by the Go scheduler; the detector is happens-before based. Failures do not shrink; the failing programs are replayed 200 times.",
+    },
     "C13": {
         "technique": "property-based testing (rapid): generated caller schemas x covering Go types x in-range values; differential oracle (reference decoder reads Codec.Write output) plus Read-after-Write inversion",
         "design_ref": "DESIGN.md §5 C13",
@@ -43,6 +109,12 @@ TEXT = {
         "design_ref": "DESIGN.md §5 C15, §4.5",
         "level_text": "Generated struct types (all field kinds incl. unsupported ones, every tag combination, registered types in every position) and a catalogue of named types (reuse, recursion, embedding, unexported fields, odd package path) are passed to SchemaForType; the result must be an error where the type is inexpressible, must equal an independent model of the documented mapping where it is documented, must be deterministic, structurally valid, stable under marshal/parse and usable by Schema.Codec. Self-referential types run in a subprocess with a watchdog so that a stack overflow is a verdict.",
         "level_note": "Trusts spec.ModelSchema as the reading of the documented mapping; silent on undocumented kinds. One open known finding (KF-C15-1, named struct defined once per occurrence) is waived for exactly that clause.",
+    },
+    "C16": {
+        "technique": "fault enumeration: every write index of generated call histories fails in turn (fault-injecting io.Writer), differential prefix oracle against the fault-free run",
+        "design_ref": "DESIGN.md §5 C16",
+        "level_text": "For each generated Encoder or FileWriter history every write of the fault-free run is made to fail with a partial acceptance: the call that issued it must return an error wrapping the writer's, no earlier call may fail, nothing may panic, and the accepted bytes must be a prefix of the fault-free output (sync markers substituted).",
+        "level_note": "Exhaustive per history over write indices, sampled over histories; map-free types only.",
     },
     "C17": {
         "technique": "exhaustive enumeration + property-based testing against an independent reference encoder (differential + round-trip oracle)",
